@@ -1246,6 +1246,8 @@ def filter_operator(A, C, B, Bf, BtBinv=None):
         A = A.tobsr((rows_per_block, cols_per_block))
     else:
         A = A.tocsr()
+    # the explicit zeros above duplicate the existing entries of A
+    A.sum_duplicates()
 
     # Calculate difference between A @ B and Bf
     diff = A @ B - Bf
